@@ -187,8 +187,28 @@ def orientation_rules(rep, prog):
             continue
         seen["flip" if m == flip else "keep" if m in nots else "?"] = c
     good = good and set(seen) == {"flip", "keep"} and {seen["flip"], seen["keep"]} == {(0, 1), (1, 0)}
-    rep.check("ORIENTATIONS.both-ways", good, fwhere(f, li["node"]), "a True choice stores the edge as (j, i), a False choice as (i, j): complementary masks, swapped columns",
-              "the two per-edge assignments are not `flipped -> one orientation, not flipped -> the other`: %s" % seen)
+    unread = False
+    if not per_edge:
+        # one expression instead of two masked stores: np.where(flipped[:, None], edges[:, [1, 0]], edges)
+        def cols2(t):
+            if t == ue:
+                return (0, 1)
+            if t[0] == "sub" and t[1] == ue and t[2][0] == "tuple" and len(t[2][1]) == 2 and t[2][1][0] == FULL and t[2][1][1][0] == "list":
+                return tuple(x[1] for x in t[2][1][1][1] if is_const(x))
+            return None
+        column_of_flip = (("sub", flip, ("tuple", (FULL, ("const", None)))), ("sub", flip, ("tuple", (FULL, ("extref", "numpy.newaxis")))),
+                          ("method", flip, "reshape", (("const", -1), ("const", 1)), ()), ("method", flip, "reshape", (("tuple", (("const", -1), ("const", 1))),), ()))
+        wh = [x for c_ in clear for x in walk(c_.idx) if isinstance(x, tuple) and len(x) == 4 and x[0] == "ext" and x[1] == "numpy.where" and len(x[2]) == 3]
+        if wh and all(w_ == wh[0] for w_ in wh) and wh[0][2][0] in column_of_flip and None not in (cols2(wh[0][2][1]), cols2(wh[0][2][2])):
+            seen = {"flip": cols2(wh[0][2][1]), "keep": cols2(wh[0][2][2])}
+            good = {seen["flip"], seen["keep"]} == {(0, 1), (1, 0)}
+        else:
+            unread = True
+    if unread:
+        rep.unk("ORIENTATIONS.both-ways", fwhere(f, li["node"]), "the orientation chosen for each undirected edge is not written as two complementary masked stores or one np.where: not read")
+    else:
+        rep.check("ORIENTATIONS.both-ways", good, fwhere(f, li["node"]), "a True choice stores the edge as (j, i), a False choice as (i, j): complementary masks, swapped columns",
+                  "the two per-edge assignments are not `flipped -> one orientation, not flipped -> the other`: %s" % seen)
     okc = False
     if len(clear) == 1 and clear[0].idx[0] == "tuple" and len(clear[0].idx[1]) == 2:
         a, b = clear[0].idx[1]
